@@ -55,6 +55,7 @@ fn main() {
             run_replay(&args[2])
         }
         "corrupt-worker" => corrupt::worker_main(),
+        "cfgmc-share" => cfgmc::share_worker_main(&args[2]),
         "fs-subject" => fsx::subject_main(&args[2]),
         _ => usage(),
     };
